@@ -229,6 +229,10 @@ fn run_l2(sink: &mut CaseSink, o: &Opts, evs: &[Ev], pipelined: bool) {
     let mut result: Option<Result<u64, Error>> = None;
     let header = peer.wait_out_len(8, Duration::from_secs(5));
     if header {
+        if o.timeout {
+            // a server that answers a little late: the timeout budget is already running
+            std::thread::sleep(Duration::from_millis(4));
+        }
         for ev in evs {
             if result.is_some() {
                 break;
